@@ -112,6 +112,7 @@ class UserManager(BaseManager):
             settings, event_bus, network)
 
         self._session: Optional[Session] = None
+        self._destroyed_session: Optional[Session] = None
 
         self._MESSAGE_MAP = build_message_map(self)
 
@@ -235,12 +236,10 @@ class UserManager(BaseManager):
 
     async def track_friends(self):
         """Starts tracking the users defined in the friends list"""
-        tasks = [
-            self.track_friend(friend)
-            for friend in self._settings.users.friends
-        ]
-
-        await asyncio.gather(*tasks, return_exceptions=True)
+        # Requesting to track is immediate: all requests are made in the step in
+        # which this method is called
+        for friend in self._settings.users.friends:
+            await self.track_friend(friend)
 
     async def untrack_friend(self, username: str):
         """Request to stop tracking a friend with given username"""
@@ -465,11 +464,22 @@ class UserManager(BaseManager):
             self.reset_users()
 
     async def _on_session_initialized(self, event: SessionInitializedEvent):
+        # The server connection can be lost, or closed on request, while the
+        # session is still being announced to the listeners. The session is
+        # destroyed and the tracked users are reset at that moment, before this
+        # listener is reached or while it is sending: users tracked from then
+        # on would outlive both
+        if event.session is self._destroyed_session:
+            return
+
         self._session = event.session
         await self._network.send_server_messages(
             CheckPrivileges.Request(),
             SetStatus.Request(UserStatus.ONLINE.value)
         )
+        if self._session is not event.session:
+            return
+
         # Due to a bug in the protocol a GetUserStatus message for ourself is
         # never returned and it needs to be set manually
         self.get_self().status = UserStatus.ONLINE
@@ -483,6 +493,7 @@ class UserManager(BaseManager):
 
     async def _on_session_destroyed(self, event: SessionDestroyedEvent):
         self._session = None
+        self._destroyed_session = event.session
 
     async def _on_friend_list_changed(self, event: FriendListChangedEvent):
         if not self._session:  # pragma: no cover
